@@ -118,6 +118,20 @@ def after_state_calls(ctx, base):
         while t == scene.IDENT or t[0] * t[3] - t[1] * t[2] == 0:
             t = scene.rand_xf(rng, general=0.5)
         ops = ["xf " + scene.xf_tokens(t)]
+        if j % 5 == 4:
+            # a drawing call that draws nothing, in either antialias mode and with either winding rule, directly followed by a
+            # clip path push, then draws under that clip: nothing of the no-op may leak into the mask
+            ops = [] if rng.random() < 0.5 else ops
+            far = "P %d 4 M %s L %s L %s Z" % (rng.randrange(2), scene.fpt(W + 9.0, 1.0), scene.fpt(W + 14.0, 2.0), scene.fpt(W + 10.0, 6.0))
+            noop = rng.choice(["fill P %d 0  solid ffffffff 3 %d %d" % (rng.randrange(2), FB(1.0), rng.randrange(2)),
+                               "fill %s solid ffffffff 3 %d %d" % (far, FB(1.0), rng.randrange(2)),
+                               "stroke %s STYLE %d butt miter %d 0 %d SRC solid ffffffff 3 %d %d" % (scene.rand_path(rng, W, H, 0.0), FB(0.0), FB(4.0), FB(0.0), FB(1.0), rng.randrange(2))])
+            ops.append(noop)
+            ops.append("clippath " + scene.rand_path(rng, W, H, 0.2))
+            for _ in range(rng.randrange(1, 3)):
+                ops.append(scene.draw_op(rng, W, H, dict(sources=["solid", "image"], draw_kinds=["fill", "fillrect", "fillrect"])))
+            out.append("scene %d %d %d I %s ; %s" % (base + j, W, H, " ".join(map(gen.hexpx, px)), " ; ".join(ops)))
+            continue
         clip = rng.random() < 0.6
         if clip:
             ops.append("cliprect %d %d %d %d" % scene.rand_rect(rng, W, H))
@@ -128,7 +142,13 @@ def after_state_calls(ctx, base):
             elif c < 0.6:
                 ops += ["layer %d %d" % (gen.alpha_bits(rng), 3), scene.draw_op(rng, W, H, dict(sources=["solid", "image"])), "poplayer"]
             elif c < 0.8:
-                ops.append("fill P 0 0  solid ffffffff 3 %d 1" % FB(1.0))          # an empty path
+                # a fill that draws nothing (empty path, or a path wholly beside the surface), antialiased or not
+                pth = rng.choice(["P 0 0 ", "P 0 4 M %s L %s L %s Z" % (scene.fpt(W + 9.0, 1.0), scene.fpt(W + 14.0, 2.0), scene.fpt(W + 10.0, 6.0))])
+                if pth != "P 0 0 " and t != scene.IDENT:
+                    ops.append("xf " + scene.xf_tokens(scene.IDENT))
+                ops.append("fill %s solid ffffffff 3 %d %d" % (pth, FB(1.0), rng.randrange(2)))
+                if pth != "P 0 0 " and t != scene.IDENT:
+                    ops.append("xf " + scene.xf_tokens(t))
             elif c < 0.9:
                 ops += ["clippath " + scene.rand_path(rng, W, H, 0.2), "popclip"]
             else:
@@ -141,6 +161,8 @@ def after_state_calls(ctx, base):
                 ops += ["clippath " + pth, "popclip", "xf " + scene.xf_tokens(t)]
         if clip and rng.random() < 0.5:
             ops.append("popclip")
+        if rng.random() < 0.35:
+            ops.append("clippath " + scene.rand_path(rng, W, H, 0.2))     # stays in force for the draws below
         for _ in range(rng.randrange(1, 3)):
             ops.append(scene.draw_op(rng, W, H, dict(sources=["image", "linearc", "image", "radialc", "solid"], draw_kinds=["fill", "fill", "fillrect", "fillrect", "stroke"], curves=0.1)))
         out.append("scene %d %d %d I %s ; %s" % (base + j, W, H, " ".join(map(gen.hexpx, px)), " ; ".join(ops)))
